@@ -68,8 +68,10 @@ def build_algebra(config, **override):
 
 def mk(alg, keys, values):
     """Build a multivector through the public constructor from ordered keys and values."""
+    import numpy as np
     keys = tuple(keys)
-    values = list(values)
+    if not isinstance(values, np.ndarray):
+        values = list(values)
     if not keys:
         return alg.multivector(keys=(), values=[])
     return alg.multivector(keys=keys, values=values)
